@@ -160,7 +160,7 @@ theorem equal_pri_like_plain_loop (c : Rat) (s : PosPQ) (h : EqualPri c s.q.pq) 
     · simp only [Bool.false_eq_true, if_false]; split <;> rfl
     · simp only [if_true]
       split
-      · rw [doMaintenance_equal c _ draw (by exact h)]
+      · split <;> rw [doMaintenance_equal c _ draw (by exact h)]
       · rfl
   · intro x hH
     have hq : (appendPri H s x c draw).q = s.q.add H PV.lt { base := c, insertedAt := s.nIns } x := by
@@ -174,7 +174,7 @@ theorem equal_pri_like_plain_loop (c : Rat) (s : PosPQ) (h : EqualPri c s.q.pq) 
       unfold updateCounters
       simp only [if_true]
       split
-      · rw [doMaintenance_equal c _ draw (by exact hE)]
+      · split <;> rw [doMaintenance_equal c _ draw (by exact hE)]
       · rfl
     rw [hq]
     intro e he hc
